@@ -3065,8 +3065,10 @@ func generateRandomizedSpec(
 	points := SupportedPointsExtension{SupportedPoints: []byte{pointFormatUncompressed}}
 
 	curveIDs := []CurveID{}
+	offerHybridGroup := false
 	if r.FlipWeightedCoin(id.Weights.CurveIDs_Append_X25519) && p.TLSVersMax == VersionTLS13 {
 		curveIDs = append(curveIDs, X25519MLKEM768)
+		offerHybridGroup = true
 	}
 	if r.FlipWeightedCoin(id.Weights.CurveIDs_Append_X25519) || p.TLSVersMax == VersionTLS13 {
 		curveIDs = append(curveIDs, X25519)
@@ -3125,9 +3127,15 @@ func generateRandomizedSpec(
 			if r.FlipWeightedCoin(id.Weights.KeyShare_Append_RandomGroups) {
 				ks.KeyShares = append(ks.KeyShares, KeyShare{Group: CurveP256})
 			}
-			if r.FlipWeightedCoin(id.Weights.KeyShare_Append_RandomGroups) {
-				ks.KeyShares = append([]KeyShare{{Group: X25519MLKEM768}}, ks.KeyShares...)
-			}
+			// This coin used to decide on the X25519MLKEM768 key share independently
+			// of supported_groups. It is still flipped, so that the PRNG stream, and
+			// with it every other choice made for a given seed, stays the same.
+			r.FlipWeightedCoin(id.Weights.KeyShare_Append_RandomGroups)
+		}
+		// A key share must be for a group listed in supported_groups, and the
+		// hybrid group is only worth listing together with its key share.
+		if offerHybridGroup {
+			ks.KeyShares = append([]KeyShare{{Group: X25519MLKEM768}}, ks.KeyShares...)
 		}
 		pskExchangeModes := PSKKeyExchangeModesExtension{[]uint8{pskModeDHE}}
 		supportedVersionsExt := SupportedVersionsExtension{
